@@ -18,7 +18,7 @@ PROP = 'C20'
 ASSUMPTIONS = [
     'engine E3 (vt/sched.py): real threads, exactly one running at a time; preemption points are the line boundaries of the watched '
     'functions (BaseParser.__call__ / resolve_forward_refs / apply_for, FunctionParser.resolve_forward_refs, ParserField / Rule / '
-    'LogicalType.resolve_forward_refs, register_forward_ref, TypeRegistry.resolve / register); preemption inside callees that are not '
+    'LogicalType.resolve_forward_refs, register_forward_ref, TypeRegistry.resolve / register and the key function of the registry sort, which runs while list.sort() holds the list detached); preemption inside callees that are not '
     'watched, inside C code, and free-threaded builds are outside the claim',
     'bounds: 2 threads (3 in one thorough scenario), at most 1 preemption (2 thorough) plus the free hand-over when a thread finishes; the solver role is the bookkeeping of the '
     'schedule tree (decisions are solver booleans; the tree is exhausted)',
